@@ -14,7 +14,12 @@ func init() {
 		ID: "C13.R1", Props: []string{"C13"}, Min: 9,
 		Doc: "every expression position can reach the function registry: each function that hands template text to an evaluator ({{ }}, bound attributes, v-html, v-text, v-if/v-else-if, v-show, <template :x>, :class/:style objects, slot props) reaches the funcMap lookup (evalFilter) in the call graph, so that a registered function — and an unknown one — means the same wherever an expression is allowed",
 		Run: func(p *Prog, c *Ctx) {
-			filter := p.MustFn("(*vuego.Vue).evalFilter")
+			// the funcMap lookup: evalFilter, or the function it was merged into
+			filters, _ := p.hostsOf("(*vuego.Vue).evalFilter")
+			if len(filters) == 0 {
+				undecided("anchor function (*vuego.Vue).evalFilter not found, nor its former callers")
+			}
+			filter := filters[0]
 			pipe := p.MustFn("(*vuego.Vue).evalPipe")
 			c.check(p.Cone(pipe)[filter], "pipe interpreter reaches the registry", p.pos(pipe.Pos()), "evalPipe → evalFilter → funcMap", "the pipe interpreter no longer reaches the funcMap lookup")
 			// expression sites, attributed to the role function that owns them (helpers extracted from a position stay with it)
@@ -71,14 +76,30 @@ func init() {
 		Doc: "function errors are named and not swallowed: the reflective call is made only by the filter evaluator, every error the filter evaluator returns carries the function's name, and an error produced by the pipe interpreter is returned by the position that invoked it (no silent fallback to another evaluation strategy)",
 		Run: func(p *Prog, c *Ctx) {
 			cf := p.MustFn("(*vuego.Vue).callFunc")
-			ef := p.MustFn("(*vuego.Vue).evalFilter")
+			efs, efIsRole := p.hostsOf("(*vuego.Vue).evalFilter")
+			if len(efs) == 0 || len(efs[0].Params) < 4 {
+				undecided("anchor function (*vuego.Vue).evalFilter not found, nor a former caller of the same shape")
+			}
+			ef := efs[0]
 			for i, site := range p.Callers(cf) {
 				c.check(site.Parent() == ef, fmt.Sprintf("callFunc caller#%d", i+1), p.instrPos(site), "called from evalFilter", "callFunc is called from "+shortName(site.Parent())+": errors of that call are not wrapped with the function's name")
 			}
 			seg := ef.Params[2]
 			n := 0
+			// (merged into the segment evaluator: only the errors of the filter part — after the registry lookup)
+			var lookup ssa.Instruction
+			eachInstr(ef, func(in ssa.Instruction) {
+				if lk, ok := in.(*ssa.Lookup); ok && lookup == nil {
+					if f := loadedField(lk.X); f != nil && fieldIs(f, "funcMap") {
+						lookup = lk
+					}
+				}
+			})
 			for _, site := range callsIn(ef) {
 				if calleeName(site.Common()) != "fmt.Errorf" {
+					continue
+				}
+				if !efIsRole && (lookup == nil || !canFollow(lookup, site)) {
 					continue
 				}
 				n++
@@ -131,7 +152,11 @@ func init() {
 				c.check(threaded, fmt.Sprintf("evalPipe: segment input#%d", n), p.instrPos(site), "input = previous segment's result", "a segment in the pipe loop does not receive the previous segment's result: filters are not composed left to right")
 			}
 			c.check(rangeAscending(ep), "evalPipe: ascending order", p.pos(ep.Pos()), "segments visited first to last", "segments are not visited in ascending order")
-			ef := p.MustFn("(*vuego.Vue).evalFilter")
+			efs, _ := p.hostsOf("(*vuego.Vue).evalFilter")
+			if len(efs) == 0 || len(efs[0].Params) < 4 {
+				undecided("anchor function (*vuego.Vue).evalFilter not found, nor a former caller of the same shape")
+			}
+			ef := efs[0]
 			input := ef.Params[3]
 			var first, rest []ssa.Instruction
 			for _, site := range callsIn(ef) {
